@@ -1,0 +1,904 @@
+//! Instrumented drop-in for the parts of `std` whose operations are actions
+//! of the specification (`VStd.tla`).
+//!
+//! A module opts in with `use crate::verif::vstd as std;`. Everything not
+//! listed here is passed through from the real `std`. On a thread that is
+//! not managed by a scheduler every item delegates to the real `std`.
+
+pub use ::std::*;
+
+use super::sched::{self, Ev, Op, State};
+
+const TOMBSTONE: usize = usize::MAX - 0xdead;
+
+/// Lazily assigned object identity stored inside the object itself.
+pub(crate) struct LazyId(::std::cell::UnsafeCell<usize>);
+
+// SAFETY: Only accessed by the thread holding the scheduler's baton.
+unsafe impl Sync for LazyId {}
+unsafe impl Send for LazyId {}
+
+pub(crate) enum IdState {
+    Live(usize),
+    Dropped,
+}
+
+impl LazyId {
+    pub const fn new() -> Self {
+        Self(::std::cell::UnsafeCell::new(0))
+    }
+
+    fn raw(&self) -> usize {
+        // Volatile: this may deliberately read a dead stack slot.
+        unsafe { ::std::ptr::read_volatile(self.0.get()) }
+    }
+
+    fn set_raw(&self, v: usize) {
+        unsafe { ::std::ptr::write_volatile(self.0.get(), v) }
+    }
+
+    /// Resolves the identity under the scheduler lock.
+    pub fn resolve(&self, st: &mut State) -> IdState {
+        let raw = self.raw();
+        if raw == 0 {
+            let id = st.new_obj();
+            self.set_raw(id);
+            IdState::Live(id)
+        } else if raw != TOMBSTONE && st.live.contains(&raw) {
+            IdState::Live(raw)
+        } else {
+            IdState::Dropped
+        }
+    }
+
+    pub fn kill(&self, st: &mut State) -> Option<usize> {
+        let raw = self.raw();
+        self.set_raw(TOMBSTONE);
+        if raw != 0 && raw != TOMBSTONE && st.live.remove(&raw) {
+            Some(raw)
+        } else {
+            None
+        }
+    }
+}
+
+fn ord_name(o: ::std::sync::atomic::Ordering) -> &'static str {
+    use ::std::sync::atomic::Ordering::*;
+    match o {
+        Relaxed => "Relaxed",
+        Release => "Release",
+        Acquire => "Acquire",
+        AcqRel => "AcqRel",
+        SeqCst => "SeqCst",
+        _ => "Other",
+    }
+}
+
+pub mod process {
+    pub use ::std::process::*;
+
+    use super::{sched, Ev, Op};
+
+    pub fn abort() -> ! {
+        if let Some(c) = sched::ctx() {
+            c.sched.point(c.tid, Op::Step, |st| {
+                st.log(c.tid, &Ev::new("abort"));
+            });
+            c.sched.abort_scenario();
+        }
+        ::std::process::abort()
+    }
+}
+
+pub mod panic {
+    pub use ::std::panic::*;
+}
+
+pub mod sync {
+    pub use ::std::sync::*;
+
+    use super::{sched, Ev, IdState, LazyId, Op, State};
+
+    pub mod atomic {
+        pub use ::std::sync::atomic::*;
+
+        use super::super::{ord_name, sched, Ev, IdState, LazyId, Op, State};
+
+        macro_rules! atomic_int {
+            ($name:ident, $real:ty, $int:ty) => {
+                pub struct $name {
+                    id: LazyId,
+                    inner: $real,
+                }
+
+                impl $name {
+                    pub const fn new(v: $int) -> Self {
+                        Self { id: LazyId::new(), inner: <$real>::new(v) }
+                    }
+
+                    pub fn load(&self, order: Ordering) -> $int {
+                        let Some(c) = sched::ctx() else {
+                            return self.inner.load(order);
+                        };
+                        c.sched.point(c.tid, Op::Step, |st| {
+                            match self.id.resolve(st) {
+                                IdState::Live(id) => {
+                                    let v = self.inner.load(order);
+                                    st.log(
+                                        c.tid,
+                                        &Ev::new("atomic_load")
+                                            .u("o", State::short(id))
+                                            .s("ord", ord_name(order))
+                                            .u("val", v as u128),
+                                    );
+                                    v
+                                }
+                                IdState::Dropped => {
+                                    st.log(
+                                        c.tid,
+                                        &Ev::new("access_dropped")
+                                            .s("what", "atomic_load"),
+                                    );
+                                    0 as $int
+                                }
+                            }
+                        })
+                    }
+
+                    pub fn store(&self, v: $int, order: Ordering) {
+                        let Some(c) = sched::ctx() else {
+                            return self.inner.store(v, order);
+                        };
+                        c.sched.point(c.tid, Op::Step, |st| {
+                            match self.id.resolve(st) {
+                                IdState::Live(id) => {
+                                    self.inner.store(v, order);
+                                    st.log(
+                                        c.tid,
+                                        &Ev::new("atomic_store")
+                                            .u("o", State::short(id))
+                                            .s("ord", ord_name(order))
+                                            .u("val", v as u128),
+                                    );
+                                }
+                                IdState::Dropped => {
+                                    st.log(
+                                        c.tid,
+                                        &Ev::new("access_dropped")
+                                            .s("what", "atomic_store"),
+                                    );
+                                }
+                            }
+                        })
+                    }
+
+                    fn rmw(
+                        &self,
+                        name: &'static str,
+                        arg: $int,
+                        order: Ordering,
+                        f: impl FnOnce(&$real) -> $int,
+                    ) -> $int {
+                        let Some(c) = sched::ctx() else {
+                            return f(&self.inner);
+                        };
+                        c.sched.point(c.tid, Op::Step, |st| {
+                            match self.id.resolve(st) {
+                                IdState::Live(id) => {
+                                    let old = f(&self.inner);
+                                    st.log(
+                                        c.tid,
+                                        &Ev::new("atomic_rmw")
+                                            .u("o", State::short(id))
+                                            .s("op", name)
+                                            .u("arg", arg as u128)
+                                            .s("ord", ord_name(order))
+                                            .u("old", old as u128),
+                                    );
+                                    old
+                                }
+                                IdState::Dropped => {
+                                    st.log(
+                                        c.tid,
+                                        &Ev::new("access_dropped")
+                                            .s("what", name),
+                                    );
+                                    0 as $int
+                                }
+                            }
+                        })
+                    }
+
+                    pub fn fetch_add(&self, v: $int, order: Ordering) -> $int {
+                        self.rmw("fetch_add", v, order, |a| {
+                            a.fetch_add(v, order)
+                        })
+                    }
+
+                    pub fn fetch_sub(&self, v: $int, order: Ordering) -> $int {
+                        self.rmw("fetch_sub", v, order, |a| {
+                            a.fetch_sub(v, order)
+                        })
+                    }
+
+                    pub fn swap(&self, v: $int, order: Ordering) -> $int {
+                        self.rmw("swap", v, order, |a| a.swap(v, order))
+                    }
+
+                    pub fn compare_exchange(
+                        &self,
+                        current: $int,
+                        new: $int,
+                        success: Ordering,
+                        failure: Ordering,
+                    ) -> Result<$int, $int> {
+                        let mut result = Err(0 as $int);
+                        self.rmw("compare_exchange", new, success, |a| {
+                            result = a.compare_exchange(
+                                current, new, success, failure,
+                            );
+                            match result {
+                                Ok(v) | Err(v) => v,
+                            }
+                        });
+                        result
+                    }
+
+                    pub fn get_mut(&mut self) -> &mut $int {
+                        self.inner.get_mut()
+                    }
+
+                    pub fn into_inner(self) -> $int {
+                        self.inner.load(Ordering::Relaxed)
+                    }
+                }
+
+                impl Drop for $name {
+                    fn drop(&mut self) {
+                        if let Some(c) = sched::ctx() {
+                            c.sched.point(c.tid, Op::Step, |st| {
+                                if let Some(id) = self.id.kill(st) {
+                                    st.log(
+                                        c.tid,
+                                        &Ev::new("atomic_drop")
+                                            .u("o", State::short(id)),
+                                    );
+                                }
+                            });
+                        }
+                    }
+                }
+
+                impl ::std::fmt::Debug for $name {
+                    fn fmt(
+                        &self,
+                        f: &mut ::std::fmt::Formatter<'_>,
+                    ) -> ::std::fmt::Result {
+                        self.inner.fmt(f)
+                    }
+                }
+            };
+        }
+
+        atomic_int!(AtomicUsize, ::std::sync::atomic::AtomicUsize, usize);
+        atomic_int!(AtomicIsize, ::std::sync::atomic::AtomicIsize, isize);
+        atomic_int!(AtomicU64, ::std::sync::atomic::AtomicU64, u64);
+        atomic_int!(AtomicU32, ::std::sync::atomic::AtomicU32, u32);
+    }
+
+    // ---------------------------------------------------------------- Mutex
+
+    pub struct Mutex<T> {
+        id: LazyId,
+        inner: ::std::sync::Mutex<T>,
+    }
+
+    pub struct MutexGuard<'a, T> {
+        guard: Option<::std::sync::MutexGuard<'a, T>>,
+        mutex: &'a Mutex<T>,
+    }
+
+    impl<T> Mutex<T> {
+        pub const fn new(t: T) -> Self {
+            Self { id: LazyId::new(), inner: ::std::sync::Mutex::new(t) }
+        }
+
+        pub fn lock(&self) -> LockResult<MutexGuard<'_, T>> {
+            if let Some(c) = sched::ctx() {
+                // The identity must be known before the operation can be
+                // tested for enabledness.
+                let id = c.sched.with_state(|st| match self.id.resolve(st) {
+                    IdState::Live(id) => id,
+                    IdState::Dropped => 0,
+                });
+                c.sched.point(c.tid, Op::Lock(id), |st| {
+                    st.mutex_held.insert(id, true);
+                    st.log(
+                        c.tid,
+                        &Ev::new("mutex_lock").u("o", State::short(id)),
+                    );
+                });
+            }
+            match self.inner.lock() {
+                Ok(guard) => Ok(MutexGuard { guard: Some(guard), mutex: self }),
+                Err(poison) => Err(PoisonError::new(MutexGuard {
+                    guard: Some(poison.into_inner()),
+                    mutex: self,
+                })),
+            }
+        }
+
+        pub fn get_mut(&mut self) -> LockResult<&mut T> {
+            self.inner.get_mut()
+        }
+
+        pub fn into_inner(self) -> LockResult<T>
+        where
+            T: Sized,
+        {
+            // `self` has a destructor-free shape, so moving out is fine.
+            let this = ::std::mem::ManuallyDrop::new(self);
+            unsafe { ::std::ptr::read(&this.inner) }.into_inner()
+        }
+    }
+
+    impl<T> ::std::ops::Deref for MutexGuard<'_, T> {
+        type Target = T;
+        fn deref(&self) -> &T {
+            self.guard.as_ref().unwrap()
+        }
+    }
+
+    impl<T> ::std::ops::DerefMut for MutexGuard<'_, T> {
+        fn deref_mut(&mut self) -> &mut T {
+            self.guard.as_mut().unwrap()
+        }
+    }
+
+    impl<T> Drop for MutexGuard<'_, T> {
+        fn drop(&mut self) {
+            if let Some(c) = sched::ctx() {
+                c.sched.point(c.tid, Op::Step, |st| {
+                    if let IdState::Live(id) = self.mutex.id.resolve(st) {
+                        st.mutex_held.insert(id, false);
+                        st.log(
+                            c.tid,
+                            &Ev::new("mutex_unlock").u("o", State::short(id)),
+                        );
+                    }
+                });
+            }
+            self.guard = None;
+        }
+    }
+
+    // -------------------------------------------------------------- Barrier
+
+    pub struct Barrier {
+        id: LazyId,
+        n: usize,
+        inner: ::std::sync::Barrier,
+    }
+
+    pub struct BarrierWaitResult(bool);
+
+    impl BarrierWaitResult {
+        pub fn is_leader(&self) -> bool {
+            self.0
+        }
+    }
+
+    impl Barrier {
+        pub fn new(n: usize) -> Self {
+            Self { id: LazyId::new(), n, inner: ::std::sync::Barrier::new(n) }
+        }
+
+        pub fn wait(&self) -> BarrierWaitResult {
+            let Some(c) = sched::ctx() else {
+                return BarrierWaitResult(self.inner.wait().is_leader());
+            };
+
+            let (id, my_gen, leader) = c.sched.point(c.tid, Op::Step, |st| {
+                let id = match self.id.resolve(st) {
+                    IdState::Live(id) => id,
+                    IdState::Dropped => 0,
+                };
+                let n = self.n.max(1);
+                let b = st.barriers.entry(id).or_insert(
+                    super::super::sched::BarrierModel { n, arrived: 0, gen: 0 },
+                );
+                let my_gen = b.gen;
+                b.arrived += 1;
+                let leader = b.arrived >= b.n;
+                if leader {
+                    b.arrived = 0;
+                    b.gen += 1;
+                }
+                let arrived = if leader { n } else { b.arrived };
+                st.log(
+                    c.tid,
+                    &Ev::new("barrier_arrive")
+                        .u("o", State::short(id))
+                        .u("n", n as u128)
+                        .u("gen", my_gen as u128)
+                        .u("arrived", arrived as u128),
+                );
+                (id, my_gen, leader)
+            });
+
+            c.sched.point(c.tid, Op::BarrierLeave(id, my_gen), |st| {
+                st.log(
+                    c.tid,
+                    &Ev::new("barrier_leave")
+                        .u("o", State::short(id))
+                        .u("gen", my_gen as u128),
+                );
+            });
+
+            BarrierWaitResult(leader)
+        }
+    }
+
+    // ----------------------------------------------------------------- mpsc
+
+    pub mod mpsc {
+        pub use ::std::sync::mpsc::{
+            RecvError, RecvTimeoutError, SendError, TryRecvError, TrySendError,
+        };
+
+        use ::std::sync::Arc;
+
+        use super::super::{sched, Ev, Op, State};
+        use crate::verif::sched::{ChanModel, ChanSt};
+
+        struct VChan<T> {
+            id: usize,
+            slot: ::std::sync::Mutex<Option<T>>,
+        }
+
+        enum SenderImp<T> {
+            Real(::std::sync::mpsc::SyncSender<T>),
+            Virt(Arc<VChan<T>>),
+        }
+
+        enum ReceiverImp<T> {
+            Real(::std::sync::mpsc::Receiver<T>),
+            Virt(Arc<VChan<T>>),
+        }
+
+        pub struct SyncSender<T>(SenderImp<T>);
+
+        pub struct Receiver<T>(ReceiverImp<T>);
+
+        /// Rendezvous channels (bound 0) created on a managed thread are
+        /// modelled; anything else is the real thing.
+        pub fn sync_channel<T>(bound: usize) -> (SyncSender<T>, Receiver<T>) {
+            if bound == 0 {
+                if let Some(c) = sched::ctx() {
+                    let id = c.sched.point(c.tid, Op::Step, |st| {
+                        let id = st.new_obj();
+                        st.chans.insert(
+                            id,
+                            ChanModel {
+                                st: ChanSt::Empty,
+                                senders: 1,
+                                receiver_alive: true,
+                            },
+                        );
+                        st.log(
+                            c.tid,
+                            &Ev::new("chan_new").u("o", State::short(id)),
+                        );
+                        id
+                    });
+                    let chan = Arc::new(VChan {
+                        id,
+                        slot: ::std::sync::Mutex::new(None),
+                    });
+                    return (
+                        SyncSender(SenderImp::Virt(chan.clone())),
+                        Receiver(ReceiverImp::Virt(chan)),
+                    );
+                }
+            }
+            let (s, r) = ::std::sync::mpsc::sync_channel(bound);
+            (SyncSender(SenderImp::Real(s)), Receiver(ReceiverImp::Real(r)))
+        }
+
+        impl<T> SyncSender<T> {
+            pub fn send(&self, t: T) -> Result<(), SendError<T>> {
+                let chan = match &self.0 {
+                    SenderImp::Real(s) => return s.send(t),
+                    SenderImp::Virt(chan) => chan,
+                };
+                let Some(c) = sched::ctx() else {
+                    // A modelled channel used from an unmanaged thread: no
+                    // meaningful semantics; report disconnection.
+                    return Err(SendError(t));
+                };
+                let id = chan.id;
+
+                let mut value = Some(t);
+                let offered = c.sched.point(c.tid, Op::SendOffer(id), |st| {
+                    let m = st.chans.get_mut(&id).unwrap();
+                    if !m.receiver_alive {
+                        st.log(
+                            c.tid,
+                            &Ev::new("send_offer")
+                                .u("o", State::short(id))
+                                .b("ok", false),
+                        );
+                        return false;
+                    }
+                    m.st = ChanSt::Offered;
+                    *chan.slot.lock().unwrap() = value.take();
+                    st.log(
+                        c.tid,
+                        &Ev::new("send_offer")
+                            .u("o", State::short(id))
+                            .b("ok", true),
+                    );
+                    true
+                });
+                if !offered {
+                    return Err(SendError(value.take().unwrap()));
+                }
+
+                let done = c.sched.point(c.tid, Op::SendDone(id), |st| {
+                    let m = st.chans.get_mut(&id).unwrap();
+                    let ok = m.st == ChanSt::Taken;
+                    if ok {
+                        m.st = ChanSt::Empty;
+                    }
+                    st.log(
+                        c.tid,
+                        &Ev::new("send_done")
+                            .u("o", State::short(id))
+                            .b("ok", ok),
+                    );
+                    ok
+                });
+                if done {
+                    Ok(())
+                } else {
+                    let v = chan.slot.lock().unwrap().take();
+                    match v {
+                        Some(v) => Err(SendError(v)),
+                        None => Ok(()),
+                    }
+                }
+            }
+        }
+
+        impl<T> Clone for SyncSender<T> {
+            fn clone(&self) -> Self {
+                match &self.0 {
+                    SenderImp::Real(s) => Self(SenderImp::Real(s.clone())),
+                    SenderImp::Virt(chan) => {
+                        if let Some(c) = sched::ctx() {
+                            c.sched.with_state(|st| {
+                                if let Some(m) = st.chans.get_mut(&chan.id) {
+                                    m.senders += 1;
+                                }
+                            });
+                        }
+                        Self(SenderImp::Virt(chan.clone()))
+                    }
+                }
+            }
+        }
+
+        impl<T> Drop for SyncSender<T> {
+            fn drop(&mut self) {
+                if let SenderImp::Virt(chan) = &self.0 {
+                    if let Some(c) = sched::ctx() {
+                        let id = chan.id;
+                        c.sched.point(c.tid, Op::Step, |st| {
+                            if let Some(m) = st.chans.get_mut(&id) {
+                                m.senders = m.senders.saturating_sub(1);
+                            }
+                            st.log(
+                                c.tid,
+                                &Ev::new("sender_drop")
+                                    .u("o", State::short(id)),
+                            );
+                        });
+                    }
+                }
+            }
+        }
+
+        impl<T> Receiver<T> {
+            pub fn recv(&self) -> Result<T, RecvError> {
+                let chan = match &self.0 {
+                    ReceiverImp::Real(r) => return r.recv(),
+                    ReceiverImp::Virt(chan) => chan,
+                };
+                let Some(c) = sched::ctx() else {
+                    return Err(RecvError);
+                };
+                let id = chan.id;
+
+                c.sched.point(c.tid, Op::Recv(id), |st| {
+                    let m = st.chans.get_mut(&id).unwrap();
+                    if m.st == ChanSt::Offered {
+                        m.st = ChanSt::Taken;
+                        let v = chan.slot.lock().unwrap().take();
+                        st.log(
+                            c.tid,
+                            &Ev::new("recv")
+                                .u("o", State::short(id))
+                                .b("ok", true),
+                        );
+                        v.ok_or(RecvError)
+                    } else {
+                        st.log(
+                            c.tid,
+                            &Ev::new("recv")
+                                .u("o", State::short(id))
+                                .b("ok", false),
+                        );
+                        Err(RecvError)
+                    }
+                })
+            }
+        }
+
+        impl<T> Drop for Receiver<T> {
+            fn drop(&mut self) {
+                if let ReceiverImp::Virt(chan) = &self.0 {
+                    if let Some(c) = sched::ctx() {
+                        let id = chan.id;
+                        c.sched.point(c.tid, Op::Step, |st| {
+                            if let Some(m) = st.chans.get_mut(&id) {
+                                m.receiver_alive = false;
+                            }
+                            st.log(
+                                c.tid,
+                                &Ev::new("receiver_drop")
+                                    .u("o", State::short(id)),
+                            );
+                        });
+                    }
+                }
+            }
+        }
+    }
+}
+
+pub mod thread {
+    pub use ::std::thread::{
+        available_parallelism, panicking, sleep, yield_now, AccessError,
+        LocalKey, Result, ThreadId,
+    };
+
+    use super::{sched, Ev, IdState, LazyId, Op, State};
+
+    /// Handle to a (possibly managed) thread.
+    pub struct Thread {
+        id: LazyId,
+        tid: Option<usize>,
+        real: ::std::mem::ManuallyDrop<::std::thread::Thread>,
+    }
+
+    pub fn current() -> Thread {
+        let real = ::std::mem::ManuallyDrop::new(::std::thread::current());
+        match sched::ctx() {
+            Some(c) => {
+                let id = LazyId::new();
+                c.sched.point(c.tid, Op::Step, |st| {
+                    if let IdState::Live(h) = id.resolve(st) {
+                        st.log(
+                            c.tid,
+                            &Ev::new("handle_new")
+                                .u("h", State::short(h))
+                                .u("of", c.tid as u128),
+                        );
+                    }
+                });
+                Thread { id, tid: Some(c.tid), real }
+            }
+            None => Thread { id: LazyId::new(), tid: None, real },
+        }
+    }
+
+    impl Thread {
+        pub fn unpark(&self) {
+            let Some(c) = sched::ctx() else {
+                return self.real.unpark();
+            };
+            c.sched.point(c.tid, Op::Step, |st| {
+                match (self.id.resolve(st), self.tid) {
+                    (IdState::Live(h), Some(target)) => {
+                        if let Some(token) = st.token_mut(target) {
+                            *token = true;
+                        }
+                        st.log(
+                            c.tid,
+                            &Ev::new("unpark")
+                                .u("h", State::short(h))
+                                .u("target", target as u128),
+                        );
+                    }
+                    (IdState::Live(_), None) => self.real.unpark(),
+                    (IdState::Dropped, _) => {
+                        st.log(
+                            c.tid,
+                            &Ev::new("access_dropped").s("what", "unpark"),
+                        );
+                    }
+                }
+            })
+        }
+
+        pub fn id(&self) -> ThreadId {
+            self.real.id()
+        }
+
+        pub fn name(&self) -> Option<&str> {
+            self.real.name()
+        }
+    }
+
+    impl Clone for Thread {
+        fn clone(&self) -> Self {
+            let Some(c) = sched::ctx() else {
+                return Thread {
+                    id: LazyId::new(),
+                    tid: self.tid,
+                    real: self.real.clone(),
+                };
+            };
+            c.sched.point(c.tid, Op::Step, |st| match self.id.resolve(st) {
+                IdState::Live(h) => {
+                    let id = LazyId::new();
+                    let new = match id.resolve(st) {
+                        IdState::Live(n) => n,
+                        IdState::Dropped => 0,
+                    };
+                    st.log(
+                        c.tid,
+                        &Ev::new("handle_clone")
+                            .u("h", State::short(h))
+                            .u("new", State::short(new)),
+                    );
+                    Thread { id, tid: self.tid, real: self.real.clone() }
+                }
+                IdState::Dropped => {
+                    // Do not touch the dead handle's memory.
+                    st.log(
+                        c.tid,
+                        &Ev::new("access_dropped").s("what", "handle_clone"),
+                    );
+                    let id = LazyId::new();
+                    let _ = id.resolve(st);
+                    Thread {
+                        id,
+                        tid: None,
+                        real: ::std::mem::ManuallyDrop::new(
+                            ::std::thread::current(),
+                        ),
+                    }
+                }
+            })
+        }
+    }
+
+    impl Drop for Thread {
+        fn drop(&mut self) {
+            if let Some(c) = sched::ctx() {
+                c.sched.point(c.tid, Op::Step, |st| {
+                    if let Some(h) = self.id.kill(st) {
+                        st.log(
+                            c.tid,
+                            &Ev::new("handle_drop").u("h", State::short(h)),
+                        );
+                    }
+                });
+            }
+            unsafe { ::std::mem::ManuallyDrop::drop(&mut self.real) }
+        }
+    }
+
+    pub fn park() {
+        let Some(c) = sched::ctx() else {
+            return ::std::thread::park();
+        };
+        c.sched.point(c.tid, Op::Park, |st| {
+            let token = st.token_mut(c.tid).map(|t| ::std::mem::take(t));
+            let spurious = token != Some(true);
+            if spurious {
+                st.spurious_left = st.spurious_left.saturating_sub(1);
+            }
+            st.log(c.tid, &Ev::new("park").b("spurious", spurious));
+        })
+    }
+
+    pub struct Builder {
+        name: Option<String>,
+        real: ::std::thread::Builder,
+    }
+
+    pub struct JoinHandle<T> {
+        real: ::std::thread::JoinHandle<T>,
+        tid: Option<usize>,
+    }
+
+    impl<T> JoinHandle<T> {
+        pub fn join(self) -> Result<T> {
+            if let (Some(c), Some(tid)) = (sched::ctx(), self.tid) {
+                c.sched.point(c.tid, Op::Join(tid), |st| {
+                    st.log(c.tid, &Ev::new("join").u("child", tid as u128));
+                });
+            }
+            self.real.join()
+        }
+
+        pub fn thread(&self) -> &::std::thread::Thread {
+            self.real.thread()
+        }
+    }
+
+    impl Builder {
+        pub fn new() -> Self {
+            Self { name: None, real: ::std::thread::Builder::new() }
+        }
+
+        pub fn name(self, name: String) -> Self {
+            Self { name: Some(name.clone()), real: self.real.name(name) }
+        }
+
+        pub fn stack_size(self, size: usize) -> Self {
+            Self { name: self.name, real: self.real.stack_size(size) }
+        }
+
+        pub fn spawn<F, T>(self, f: F) -> ::std::io::Result<JoinHandle<T>>
+        where
+            F: FnOnce() -> T + Send + 'static,
+            T: Send + 'static,
+        {
+            let Some(c) = sched::ctx() else {
+                return self
+                    .real
+                    .spawn(f)
+                    .map(|real| JoinHandle { real, tid: None });
+            };
+
+            let name = self.name.clone().unwrap_or_default();
+            let child = c.sched.point(c.tid, Op::Step, |st| {
+                let child = sched::Sched::register_thread(st);
+                st.log(
+                    c.tid,
+                    &Ev::new("spawn").u("child", child as u128).s("name", &name),
+                );
+                child
+            });
+
+            let sched = c.sched.clone();
+            self.real
+                .spawn(move || {
+                    let mut out = None;
+                    sched::managed_thread_body(sched, child, || {
+                        out = Some(f());
+                    });
+                    match out {
+                        Some(v) => v,
+                        // The body panicked; the panic was recorded as data
+                        // in the trace. Re-raise for `JoinHandle::join`.
+                        None => ::std::panic::resume_unwind(Box::new(
+                            "managed thread panicked",
+                        )),
+                    }
+                })
+                .map(|real| JoinHandle { real, tid: Some(child) })
+        }
+    }
+
+    pub fn spawn<F, T>(f: F) -> JoinHandle<T>
+    where
+        F: FnOnce() -> T + Send + 'static,
+        T: Send + 'static,
+    {
+        Builder::new().spawn(f).expect("failed to spawn thread")
+    }
+}
